@@ -490,6 +490,16 @@ mod verif_bounded_mdk {
             if j.get_groups().unwrap().len() != groups_before { bad(&scen, "the malformed invitation created a group".into()); }
             if j.get_pending_welcomes(None).unwrap().len() != 0 { bad(&scen, "the malformed invitation left a pending welcome".into()); }
             if snapshot_g1(j) != before { bad(&scen, "the group the user is active in (g1) changed".into()); }
+            // F33: the user is removed from g1; the invitation used long ago is offered and accepted again: g1 stays Inactive
+            scen.push_str(" ; alice removes the user from g1 ; the used invitation to g1 is processed (same wrapper id) and accepted again");
+            let rm = a.remove_members(&g1, &[jk.public_key()]).unwrap().evolution_event;
+            a.merge_pending_commit(&g1).unwrap();
+            let _ = j.process_message(&rm);
+            if j.get_group(&g1).unwrap().map(|g| format!("{:?}", g.state)).as_deref() != Some("Inactive") { bad(&scen, "g1 is not Inactive after the user's removal".into()); }
+            if let Ok(again) = j.process_welcome(&wid(1), &res.welcome_rumors[0]) { let _ = j.accept_welcome(&again); }
+            let st = j.get_group(&g1).unwrap().map(|g| format!("{:?}", g.state));
+            if st.as_deref() != Some("Inactive") { bad(&scen, format!("g1 is {st:?} for the removed user after the used invitation was accepted again")); }
+            if j.create_message(&g1, create_test_rumor(&jk, "x")).is_ok() { bad(&scen, "the removed user can send to g1 again".into()); }
         }
         run(label, "memory-backed", &create_test_mdk());
         run(label, "SQLite-backed", &MDK::new(MdkSqliteStorage::new_unencrypted(":memory:").unwrap()));
